@@ -21,6 +21,7 @@ pub mod channel {
             total: usize,
             delivered: usize,
             closed: bool,
+            sent: usize,
         }
 
         pub struct Sender<T> {
@@ -35,9 +36,45 @@ pub mod channel {
 
         #[derive(Debug)]
         pub struct SendError;
+        impl core::fmt::Display for SendError {
+            fn fmt(&self, f: &mut core::fmt::Formatter<'_>) -> core::fmt::Result {
+                f.write_str("send failed because receiver is gone")
+            }
+        }
+        impl std::error::Error for SendError {}
+
+        /// `Sink` side of the model (used by `topic::Sender::send`): always ready, an item is
+        /// accepted unless the channel was closed; accepted items are only counted.
+        impl<T> real_futures::Sink<T> for Sender<T> {
+            type Error = SendError;
+            fn poll_ready(self: Pin<&mut Self>, _cx: &mut Context<'_>) -> Poll<Result<(), SendError>> {
+                if unsafe { (*self.chan).closed } {
+                    Poll::Ready(Err(SendError))
+                } else {
+                    Poll::Ready(Ok(()))
+                }
+            }
+            fn start_send(self: Pin<&mut Self>, item: T) -> Result<(), SendError> {
+                core::mem::forget(item);
+                let chan = self.chan;
+                let c = unsafe { &mut *chan };
+                if c.closed {
+                    return Err(SendError);
+                }
+                c.sent += 1;
+                Ok(())
+            }
+            fn poll_flush(self: Pin<&mut Self>, _cx: &mut Context<'_>) -> Poll<Result<(), SendError>> {
+                Poll::Ready(Ok(()))
+            }
+            fn poll_close(self: Pin<&mut Self>, _cx: &mut Context<'_>) -> Poll<Result<(), SendError>> {
+                Poll::Ready(Ok(()))
+            }
+        }
+        impl<T> Unpin for Sender<T> {}
 
         pub fn channel<T>(_buffer: usize) -> (Sender<T>, Receiver<T>) {
-            let chan = Box::into_raw(Box::new(Chan { factory: None, total: 0, delivered: 0, closed: false }));
+            let chan = Box::into_raw(Box::new(Chan { factory: None, total: 0, delivered: 0, closed: false, sent: 0 }));
             (Sender { chan }, Receiver { chan })
         }
 
@@ -53,6 +90,10 @@ pub mod channel {
             }
             pub fn delivered(&self) -> usize {
                 unsafe { (*self.chan).delivered }
+            }
+            /// items accepted through the `Sink` side
+            pub fn sent(&self) -> usize {
+                unsafe { (*self.chan).sent }
             }
         }
 
